@@ -21,7 +21,10 @@ def to_flags_data(flags: int) -> FlagsData:
     if not flags:
         return flags_data
     # Iterate through all flags, raising an exception if we hit any unknown ones
-    for f in enum._decompose(_CodeFlag, flags)[0]:  # type: ignore
+    members, not_covered = enum._decompose(_CodeFlag, flags)  # type: ignore
+    if not_covered:
+        raise ValueError(f"Flags {not_covered:#x} are not known flags")
+    for f in members:
         if f not in _CodeFlag:
             raise ValueError(f"Flag {f} is not a known flag")
         flags_data.add(f.name)
